@@ -386,11 +386,17 @@ def limit_st(draw, layers, qc_pairs, force_last_only=False):
       elif c == "BatchNormalization":
         if draw(st.booleans()):
           pairs.append([c, []])
-    npat = draw(st.sampled_from([0, 0, 1, 1, 2]))
-    cands = _name_patterns(layers)
+    npat = draw(st.sampled_from([0, 1, 1, 2]))
     import re  # pylint: disable=g-import-not-at-top
+    cands = _name_patterns(layers)
+    rel = lambda p: [l for l in layers if re.match(p, l["name"]) and  # pylint: disable=g-long-lambda
+                     (l["k"] in R.WEIGHT_CLASSES or l["k"] == "Activation")]
+    multi = [p for p in cands if len(rel(p)) >= 2]
     for _ in range(npat):
-      p = draw(st.sampled_from(cands))
+      if multi and draw(st.integers(0, 2)) > 0:
+        p = draw(st.sampled_from(multi))     # a real group (>= 2 layers)
+      else:
+        p = draw(st.sampled_from(cands))
       if any(p == k for k, _ in pairs):
         continue
       ml = [l for l in layers if re.match(p, l["name"])]
@@ -398,10 +404,12 @@ def limit_st(draw, layers, qc_pairs, force_last_only=False):
       al = [l for l in ml if l["k"] == "Activation"]
       if not wl and not al:
         continue
-      if not wl and draw(st.booleans()):
-        e = [act_entry(al)]
+      if not wl:
+        e = [act_entry(al)]                  # "^act_[0123]$": [4]
       else:
         e = full_entry(ml, any(l["k"] in R.RNN_CLASSES for l in wl))
+        if any(l["act"] == "linear" for l in al) and isinstance(e[0], list):
+          e[0] = 8 if _min_bits(qc_pairs["kernel"]) <= 8 else 16
       pairs.append([p, e])
     pairs = draw(st.permutations(pairs))
   pairs = [list(p) for p in pairs]
@@ -424,7 +432,7 @@ def spec_st(draw):
   last_only = tune != "none" and draw(st.booleans())
   spec["limit"] = draw(limit_st(layers, qc_pairs, force_last_only=last_only))
   n = len(layers) + 1                  # + InputLayer
-  li = draw(st.integers(0, 3))
+  li = draw(st.integers(0, 4))
   if li == 0:
     spec["layer_indexes"] = list(range(1, n - 1))      # notebook style
   elif li == 1:
